@@ -1,7 +1,7 @@
 //! `Snap`: the harness's own deep, `Arc`-free picture of a `Value`; `Outcome`: what an execution
 //! returned; builders that turn recipes into real values and contexts.
 use crate::workload::{KSpec, Recipe, VSpec};
-use cel_interpreter::objects::{Key, Map};
+use cel_interpreter::objects::Key;
 use cel_interpreter::{Context, ExecutionError, Value};
 use std::collections::BTreeMap;
 use std::sync::Arc;
@@ -162,6 +162,40 @@ pub fn build_key(k: &KSpec) -> Key {
     }
 }
 
+/// Builds a map value through the public API only: the harness evaluates a map literal
+/// `{k0: v0, k1: v1, ...}` (keys as literals, values as variables of a scratch context), so it depends
+/// neither on the fields of `objects::Map` nor on its hasher, and entries are inserted in the given
+/// order under whatever hash seed is current.
+pub fn make_map(entries: Vec<(Key, Value)>) -> Value {
+    use cel_parser::ast::{EntryExpr, Expr, IdedEntryExpr, IdedExpr, MapEntryExpr, MapExpr};
+    use cel_parser::reference::Val;
+    let _g = crate::tls::OracleGuard::enter();
+    let mut ctx = Context::empty();
+    let mut es = Vec::with_capacity(entries.len());
+    let mut id = 1u64;
+    for (i, (k, v)) in entries.into_iter().enumerate() {
+        let name = format!("v{}", i);
+        ctx.add_variable_from_value(name.clone(), v);
+        let key = match k {
+            Key::Int(x) => Val::Int(x),
+            Key::Uint(x) => Val::UInt(x),
+            Key::Bool(x) => Val::Boolean(x),
+            Key::String(x) => Val::String(x.as_ref().clone()),
+        };
+        id += 3;
+        es.push(IdedEntryExpr {
+            id,
+            expr: EntryExpr::MapEntry(MapEntryExpr {
+                key: IdedExpr { id: id + 1, expr: Expr::Literal(key) },
+                value: IdedExpr { id: id + 2, expr: Expr::Ident(name) },
+                optional: false,
+            }),
+        });
+    }
+    let expr = IdedExpr { id: 1, expr: Expr::Map(MapExpr { entries: es }) };
+    ctx.resolve(&expr).unwrap_or(Value::Null)
+}
+
 /// Instantiates a value recipe. `shared` are the already built shared values of the context.
 pub fn build_value(spec: &VSpec, shared: &[Value]) -> Value {
     match spec {
@@ -173,19 +207,7 @@ pub fn build_value(spec: &VSpec, shared: &[Value]) -> Value {
         VSpec::Str(s) => Value::String(Arc::new(s.clone())),
         VSpec::Bytes(b) => Value::Bytes(Arc::new(b.clone())),
         VSpec::List(xs) => Value::List(Arc::new(xs.iter().map(|x| build_value(x, shared)).collect())),
-        VSpec::Map(es) => {
-            // `Default::default()` picks whatever hasher the tree's `Map` type uses (seeded or RandomState).
-            let mut m = Map {
-                map: Arc::new(Default::default()),
-            };
-            {
-                let inner = Arc::get_mut(&mut m.map).expect("fresh map");
-                for (k, v) in es {
-                    inner.insert(build_key(k), build_value(v, shared));
-                }
-            }
-            Value::Map(m)
-        }
+        VSpec::Map(es) => make_map(es.iter().map(|(k, v)| (build_key(k), build_value(v, shared))).collect()),
         VSpec::Shared(i) => shared.get(*i).cloned().unwrap_or(Value::Null),
         VSpec::Dur(n) => Value::Duration(chrono::Duration::nanoseconds(*n)),
         VSpec::Ts(secs, nanos, off) => {
@@ -210,24 +232,19 @@ pub fn rebuild_from_snap(s: &Snap) -> Value {
         Snap::Str(s) => Value::String(Arc::new(s.clone())),
         Snap::Bytes(b) => Value::Bytes(Arc::new(b.clone())),
         Snap::List(xs) => Value::List(Arc::new(xs.iter().map(rebuild_from_snap).collect())),
-        Snap::Map(es) => {
-            let mut m = Map {
-                map: Arc::new(Default::default()),
-            };
-            {
-                let inner = Arc::get_mut(&mut m.map).expect("fresh map");
-                for (k, v) in es {
+        Snap::Map(es) => make_map(
+            es.iter()
+                .map(|(k, v)| {
                     let key = match k {
                         SnapKey::Int(i) => Key::Int(*i),
                         SnapKey::UInt(u) => Key::Uint(*u),
                         SnapKey::Bool(b) => Key::Bool(*b),
                         SnapKey::Str(s) => Key::String(Arc::new(s.clone())),
                     };
-                    inner.insert(key, rebuild_from_snap(v));
-                }
-            }
-            Value::Map(m)
-        }
+                    (key, rebuild_from_snap(v))
+                })
+                .collect(),
+        ),
         Snap::Func(n, r) => Value::Function(
             Arc::new(n.clone()),
             r.as_ref().map(|b| Box::new(rebuild_from_snap(b))),
